@@ -277,7 +277,7 @@ func c02Run(c *fw.Ctx) error {
 				}
 			}
 			if di%37 == 5 && pi%7 == 2 {
-				c.Sample(map[string]string{"doc": dj, "path": p.String(), "forms": "p = v (9 values), p |= f (7), p += -= *= e (4 operands), put-get, put-put, get-put"})
+				c.Sample(map[string]string{"doc": dj, "path": p.String(), "forms": fmt.Sprintf("p = v (%d values), p |= f (%d functions), p += -= *= e (%d operands), put-get, put-put, get-put, chains", len(vals), len(funcs), len(operands))})
 			}
 		}
 	}
